@@ -27,8 +27,8 @@ def sym_pva(with_rates=False, lat_range=(-85, 85), pitch_range=(-85, 85)):
     return pd.Series([vals[n] for n in names], index=names, dtype=object)
 
 
-PVA_BOX = {'lat': (-84, 84), 'lon': (-179, 179), 'alt': (0, 20000), 'VN': (-200, 200), 'VE': (-200, 200), 'VD': (-50, 50),
-           'roll': (-179, 179), 'pitch': (-84, 84), 'heading': (-179, 179), 'rate_x': (-2, 2), 'rate_y': (-2, 2), 'rate_z': (-2, 2)}
+PVA_BOX = {'lat': (-85, 85), 'lon': (-179, 179), 'alt': (0, 20000), 'VN': (-200, 200), 'VE': (-200, 200), 'VD': (-50, 50),
+           'roll': (-179, 179), 'pitch': (-85, 85), 'heading': (-179, 179), 'rate_x': (-2, 2), 'rate_y': (-2, 2), 'rate_z': (-2, 2)}
 
 
 def section(rep, wa, order=1, mutate=None):
